@@ -509,7 +509,7 @@ func randDistTransform(c *hlib.Ctx, depth int) xform3 {
 		return xform3{model3d.Rotation(ax, th), fmt.Sprintf("Rotation(%v,%v)", ax, th)}
 	case depth > 0:
 		a, b := randDistTransform(c, depth-1), randDistTransform(c, depth-1)
-		return xform3{model3d.JoinedTransform{a.t, b.t}.(model3d.DistTransform), "Join{" + a.name + "," + b.name + "}"}
+		return xform3{model3d.JoinedTransform{a.t, b.t}, "Join{" + a.name + "," + b.name + "}"}
 	default:
 		v := randCenter3(c)
 		return xform3{&model3d.Translate{Offset: v}, fmt.Sprintf("Translate%v", v)}
